@@ -292,7 +292,8 @@ DEFAULT_NAMES = [m.dotted for m in spec_table.METHODS] + \
 
 
 def prim_encode_ops():
-    vals = st.one_of(S.table_ints(), S.texts(8), S.table_decimals(), S.datetimes(),
+    vals = st.one_of(S.table_ints(), st.sampled_from([40000, 3000000000, 65535, 2**31]),
+                     S.texts(8), S.table_decimals(), S.datetimes(),
                      S.tables(4), st.lists(S.leaves(), max_size=3), st.booleans(),
                      st.binary(max_size=4).map(bytearray), S.table_floats(),
                      st.integers(-2**70, 2**70))
@@ -450,6 +451,55 @@ def thread_cases(tier):
         'opcode': st.just(tier == 'thorough')})
 
 
+def check_cross_thread(case):
+    """a history whose operations are placed on 2-3 long-lived threads, one at a time:
+    results may not depend on which thread made the call or set the switch"""
+    from pbt.sched import ThreadPoolSeq
+    f = fresh()
+    pool = ThreadPoolSeq(case['nthreads'])
+    legacy = False
+    cross = 0
+    last = None
+    try:
+        pool.call(0, lambda: encode.support_deprecated_rabbitmq(False))
+        for step, (tid, op) in enumerate(case['ops']):
+            if op[0] == 'toggle':
+                pool.call(tid, lambda: encode.support_deprecated_rabbitmq(op[1]))
+                legacy = bool(op[1])
+                last = tid
+                continue
+            call = to_call(op)
+            if call is None:
+                continue
+            got = pool.call(tid, lambda: calls.execute(call))
+            want = f.ask(legacy, call)
+            if last is not None and last != tid:
+                cross += 1
+            if got != want:
+                raise Violation('thread-dependent:%s' % op[0],
+                                'step %d on thread %d %s: result %s differs from the '
+                                'fresh-interpreter result %s (legacy=%s, last toggled by '
+                                'thread %s)' % (step, tid, canon.short(call, 140),
+                                                canon.short(got, 160),
+                                                canon.short(want, 160), legacy, last))
+    finally:
+        try:
+            pool.call(0, lambda: encode.support_deprecated_rabbitmq(False))
+        finally:
+            pool.close()
+            encode.support_deprecated_rabbitmq(False)
+    return {'labels': ['cross=%d' % min(cross, 5)], 'nontrivial': cross > 0}
+
+
+def cross_thread_cases(tier):
+    op = st.one_of(call_ops(), call_ops(), prim_encode_ops(),
+                   st.tuples(st.just('toggle'), st.booleans())).map(list)
+    return st.fixed_dictionaries({
+        'nthreads': st.integers(2, 3),
+        'ops': st.lists(st.tuples(st.integers(0, 2), op).map(list), min_size=3,
+                        max_size=25)})
+
+
 # ---------------------------------------------------------------- saturation x schedule
 
 FILL_LEVELS = sorted({0} | {2 ** k + d for k in range(4, 13) for d in (-1, 0, 1)})
@@ -579,6 +629,10 @@ COMPONENTS = [
     Component('history', check_history, strategy=history_cases,
               budget={'quick': 2400, 'thorough': 48000},
               describe='generated API call histories vs fresh interpreter'),
+    Component('cross-thread', check_cross_thread, strategy=cross_thread_cases,
+              budget={'quick': 1600, 'thorough': 32000},
+              describe='histories (incl. switch toggles) whose operations are placed on '
+                       '2-3 long-lived threads, one at a time'),
     Component('saturation-all', check_saturation, cases=saturation_sweep,
               distinct_by_construction=True,
               describe='every value kind x every power-of-two fill level +-1 (16..4096) '
